@@ -246,6 +246,8 @@ pub fn to_msg(m: &Sx) -> Option<CosmosMsg> {
 
 pub struct Scripted {
     pub tag: String,
+    /// `Contract::checksum` override (None = the keeper's checksum generator decides)
+    pub checksum: Option<cosmwasm_std::Checksum>,
 }
 
 enum Store<'a> {
@@ -462,6 +464,9 @@ impl Contract<Empty> for Scripted {
     fn migrate(&self, deps: DepsMut, env: Env, msg: Vec<u8>) -> AnyResult<Response> {
         self.run(deps, env, "migrate", None, unquote(&msg), "-".into())
     }
+    fn checksum(&self) -> Option<cosmwasm_std::Checksum> {
+        self.checksum
+    }
 }
 
 // ------------------------------------------------------------------------------------------------
@@ -471,22 +476,22 @@ impl Contract<Empty> for Scripted {
 const WTAG: &str = "W";
 
 fn w_exec(deps: DepsMut, env: Env, info: MessageInfo, msg: String) -> AnyResult<Response> {
-    Scripted { tag: WTAG.into() }.run(deps, env, "execute", Some(&info), msg, "-".into())
+    Scripted { tag: WTAG.into(), checksum: None }.run(deps, env, "execute", Some(&info), msg, "-".into())
 }
 fn w_inst(deps: DepsMut, env: Env, info: MessageInfo, msg: String) -> AnyResult<Response> {
-    Scripted { tag: WTAG.into() }.run(deps, env, "instantiate", Some(&info), msg, "-".into())
+    Scripted { tag: WTAG.into(), checksum: None }.run(deps, env, "instantiate", Some(&info), msg, "-".into())
 }
 fn w_query(deps: Deps, env: Env, msg: String) -> AnyResult<Binary> {
-    Scripted { tag: WTAG.into() }.query(deps, env, json_str(&msg))
+    Scripted { tag: WTAG.into(), checksum: None }.query(deps, env, json_str(&msg))
 }
 fn w_sudo(deps: DepsMut, env: Env, msg: String) -> AnyResult<Response> {
-    Scripted { tag: WTAG.into() }.run(deps, env, "sudo", None, msg, "-".into())
+    Scripted { tag: WTAG.into(), checksum: None }.run(deps, env, "sudo", None, msg, "-".into())
 }
 fn w_migrate(deps: DepsMut, env: Env, msg: String) -> AnyResult<Response> {
-    Scripted { tag: WTAG.into() }.run(deps, env, "migrate", None, msg, "-".into())
+    Scripted { tag: WTAG.into(), checksum: None }.run(deps, env, "migrate", None, msg, "-".into())
 }
 fn w_reply(deps: DepsMut, env: Env, msg: Reply) -> AnyResult<Response> {
-    Scripted { tag: WTAG.into() }.reply(deps, env, msg)
+    Scripted { tag: WTAG.into(), checksum: None }.reply(deps, env, msg)
 }
 
 pub fn wrapped_contract() -> Box<dyn Contract<Empty>> {
@@ -690,16 +695,32 @@ fn exec_wasm_on<A: Api>(mut apps: Vec<AppOf<A>>, sym_fn: fn(&AppOf<A>, &str) -> 
             "bindc" => format!("bound {}", hex(&default_checksum(a(1).parse().unwrap_or(0)))),
             "store" => {
                 let tag = a(1).to_string();
-                outcome(guarded(|| Ok(app.store_code(Box::new(Scripted { tag })))), |id| format!("id {}", id))
+                outcome(guarded(|| Ok(app.store_code(Box::new(Scripted { tag, checksum: None })))), |id| format!("id {}", id))
+            }
+            "store-c" => {
+                // store-c TAG CHKHEX: the code carries its own 32-byte checksum
+                let tag = a(1).to_string();
+                let mut arr = [0u8; 32];
+                let bytes = unhex(a(2));
+                if bytes.len() == 32 {
+                    arr.copy_from_slice(&bytes);
+                }
+                let checksum = Some(cosmwasm_std::Checksum::from(arr));
+                outcome(guarded(|| Ok(app.store_code(Box::new(Scripted { tag, checksum })))), |id| format!("id {}", id))
+            }
+            "bind2x" => {
+                // bind2x <checksum hex> <creator sym> <salt hex> <real>
+                let r = salted_addr(app, &unhex(a(1)), &real(a(2)), &unhex(a(3)));
+                format!("bound {}", r)
             }
             "store-w" => outcome(guarded(|| Ok(app.store_code(wrapped_contract()))), |id| format!("id {}", id)),
             "store-as" => {
                 let (c, tag) = (Addr::unchecked(real(a(1))), a(2).to_string());
-                outcome(guarded(|| Ok(app.store_code_with_creator(c, Box::new(Scripted { tag })))), |id| format!("id {}", id))
+                outcome(guarded(|| Ok(app.store_code_with_creator(c, Box::new(Scripted { tag, checksum: None })))), |id| format!("id {}", id))
             }
             "store-id" => {
                 let (c, id, tag) = (Addr::unchecked(real(a(1))), a(2).parse::<u64>().unwrap_or(0), a(3).to_string());
-                outcome(guarded(|| app.store_code_with_id(c, id, Box::new(Scripted { tag }))), |id| format!("id {}", id))
+                outcome(guarded(|| app.store_code_with_id(c, id, Box::new(Scripted { tag, checksum: None }))), |id| format!("id {}", id))
             }
             "dup" => {
                 let id = a(1).parse::<u64>().unwrap_or(0);
